@@ -51,6 +51,37 @@ Definition fexp0 (x : float) : float :=
   else nan.
 Definition fpow0 (x y : float) : float := nan.   (* not reached: cases without kt_finish *)
 
+(* libm values recorded from the extracted model's own run of the case, as lookup tables: the key is the bit
+   pattern of the argument (zeros of either sign are told apart through their reciprocals) *)
+Definition fkey (x y : float) : bool := fsame x y && fsame (1 / x) (1 / y).
+
+Fixpoint lookup1 (tab : list (float * float)) (x : float) : float :=
+  match tab with
+  | [] => fexp0 x
+  | (k, v) :: r => if fkey k x then v else lookup1 r x
+  end.
+
+Fixpoint lookup2 (tab : list (float * float * float)) (x y : float) : float :=
+  match tab with
+  | [] => nan
+  | (k1, k2, v) :: r => if fkey k1 x && fkey k2 y then v else lookup2 r x y
+  end.
+
+Definition opt_case_ok_tab (etab : list (float * float)) (ptab : list (float * float * float))
+    (b : builder NumF) (ps : list float) (hs : list (handle NumF)) (draws : list (draw NumF))
+    (recorded : list (option float * list float)) (final : list float) : bool :=
+  let oracle (k : N) (v : list float) : option float :=
+    match nth_error recorded (N.to_nat k) with
+    | Some (sc, vec) => if all2 fsame v vec then sc else None
+    | None => None
+    end in
+  match optimise NumF (lookup1 etab) oracle (build NumF (lookup2 ptab) b) ps hs draws with
+  | Returned _ st =>
+      all2 fsame (params NumF st) final
+      && N.eqb (N.of_nat (List.length recorded)) (calls NumF st + (if converged NumF st then 0 else 1))%N
+  | _ => false
+  end.
+
 Definition opt_case_ok (b : builder NumF) (ps : list float) (hs : list (handle NumF)) (draws : list (draw NumF))
     (recorded : list (option float * list float)) (final : list float) : bool :=
   (* the oracle answers with the recorded score only when asked about the recorded parameter vector *)
